@@ -34,6 +34,12 @@ type c14Case struct {
 	Map  []int  `json:"map_choices,omitempty"`
 }
 
+// longer summaries than the exhaustive bound reaches: quoted values that contain the other quote character
+var c14Hand = []string{
+	"#s='5\"'", "#q=\"'tis\"", "#q='\"x\"'", "#q=\"'x'\"", "#q='\"'", "#q=\"'\"", "#q='a\"b' #r=\"c'd\"", "#q=\"it's\" and #r='say \"hi\"'",
+	"#a='1' #a=\"1\" #a=1 #A='1\"'", "#tag=\"\" #tag='' #tag= #tag", "##a ###b=#c", "#a=\"x #b\" #c", "#a='x #b #c", "#ü-_=ü-_ #中=中",
+}
+
 func c14Space(tier fw.Tier) docgen.TokenSpace {
 	k := 6
 	if tier == fw.Thorough {
@@ -82,12 +88,15 @@ func init() {
 			"`##a` is read as text '#' followed by tag #a (the specification does not exclude it)",
 			"totals observed through service.AggregateTotalsByTags for all and through `klog tags -v -c --decimal --no-style` and `klog json` for every 8th document of T",
 		},
-		Units: func(t fw.Tier) int { return len(planSpans([]int{c14Space(t).Count(), c14TotalsCount()}, 50000)) },
+		Units: func(t fw.Tier) int { return len(planSpans([]int{c14Space(t).Count(), c14TotalsCount(), len(c14Hand)}, 50000)) },
 		RunUnit: func(c *fw.Ctx, unit int) {
-			sp := planSpans([]int{c14Space(c.Tier).Count(), c14TotalsCount()}, 50000)[unit]
+			sp := planSpans([]int{c14Space(c.Tier).Count(), c14TotalsCount(), len(c14Hand)}, 50000)[unit]
 			for i := sp.lo; i < sp.hi; i++ {
 				if sp.fam == 0 {
 					c14Summary(c, i, c14Space(c.Tier).At(i))
+				} else if sp.fam == 2 {
+					c14Summary(c, -1-i, c14Hand[i])
+					c14Totals(c, -1-i, "2020-01-01\n"+c14Hand[i]+"\n    1h "+c14Hand[(i+1)%len(c14Hand)]+"\n    2h\n", nil, true)
 				} else {
 					c14Totals(c, i, c14TotalsAt(i), nil, i%16 == 0)
 				}
@@ -334,7 +343,7 @@ func c14Totals(c *fw.Ctx, idx int, text string, mapChoices []int, exploreOrders 
 			c.Cap("map-order exploration capped at 300000 executions for one document")
 		}
 	}
-	if idx%8 == 0 {
+	if idx >= 0 && idx%8 == 0 {
 		c14CLI(c, cs, text, ref.Records, want)
 	}
 }
